@@ -61,6 +61,8 @@ PROP = {  # subject keyword -> (property, failing input)
  'spline gradient of bsplines when the number of interpolation points equals vec_size': ('C26', "SplineComp(method='bsplines', num_cp=5, vec_size=3, x_interp_val=[0.115,0.5,0.575]): ValueError 'setting an array element with a sequence' in compute_partials"),
  "check_totals restores an approximated model's own approximation settings": ('C31', "model with approx_totals('cs'): after check_totals(method='fd') every later compute_totals is a forward difference (1.1500000000000001 -> 1.1500002497341484)"),
  'nested run_linearize keeps the total jacobian of an approximated model': ('C31', 'approx_totals + dynamic declare_coloring(): the first compute_totals returns {0, 0}, later ones {-2, -3}'),
+ 'check_partials keeps the out-of-pattern nonzeros found by every step': ('C13', 'check_partials(step=[0.125, 1.0]): an out-of-pattern entry that is nonzero only with step 1.0 is not reported when another entry is found with the last step'),
+ 'vector bounds enforcement never backtracks further than the full step': ('C10', 'BoundsEnforceLS vector, entry on its bound with a 4e-16 Newton step: d_alpha/alpha = 1.026 > 1 reverses the whole step (output moves -0.51 against a +19.5 step)'),
  'check_partials works on private copies': ('C13', "check_partials(method='fd', step=[0.5, 0.25]) on a dense partial: J_fd[0] is J_fd[1] (last step's values); constant val= partials overwritten by the approximation (second check reports zero error, compute_totals returns 2 instead of 5)"),
  'InterpND.gradient returns the derivative at the point': ('C16', 'akima 2-D table: interpolate(x); gradient(x) returns np.empty garbage for sub-dimensions ([[-2.127, 0.]] instead of [[-2.127, -2.983]]); gradient(x) after an in-place change of x returns the old gradient'),
  'check_partials reports every approximated nonzero': ('C13', 'diagonal-declared 4x4 with 8 off-diagonal nonzeros: rows/cols, coo, csc reported 2, csr none, diagonal=True raised KeyError'),
